@@ -1,4 +1,5 @@
 import EupsModel.Lemmas.ShellEmit
+import EupsModel.Lemmas.ShellFn
 /-! C05 — emitted shell commands reproduce the computed environment when sourced.  Property theorems only
 (model: `Model/ShellEmit.lean`, helper lemmas: `Lemmas/ShellEmit.lean`).
 
@@ -251,6 +252,181 @@ example :
                       (Str.ofString "EUPS_SHELLTOOLS_DIR", [47]), (Str.ofString "EUPS_PKGROOT", [47])]
     emit {} (OldEnv.ofEnv old) [(Str.ofString "EUPS_PATH", [47])] [] [] =
       some [Str.ofString "unset EUPS_PATH_SAVED", Str.ofString "unset EUPS_SHELLTOOLS_DIR"] := by
+  decide
+
+/-! ## the complete text: variables *and* shell functions (aliases), exit status
+
+`shEvalF env funcs text` is the second layer of the shell model: besides the exported environment it tracks the
+shell's functions (name → canonical text of the parsed body), what `echo` wrote, and the exit status of the last
+command.  `canon v` is the canonical text of the function that the alias value `v` defines (its words joined by
+single blanks). -/
+
+/-- **C05 with aliases, full clause.**  For every caller's environment `old` (a dictionary), every function table
+`funcs0` the caller's shell may hold, every computed environment `new` and every pair (`aliases`, `oldAliases`) —
+alias names usable as function names, alias values plain command lines — the shell that evaluates the *complete*
+text printed by `setup` (exports, unsets, a function definition `NAME() { VALUE ; }` per new alias, `unset -f NAME`
+per removed alias, joined by `";\n"`) ends with exactly `new` as its environment, with every alias defined as a
+function holding its value, every removed alias gone, every other function untouched, nothing written to the
+terminal and exit status 0.  (`htrack`: an alias that eups skips because `oldAliases` already holds its value is
+assumed to exist in the shell with that value — this is what "already defined" means.) -/
+theorem C05_roundtrip_aliases (old new funcs0 : Env) (aliases : List (Str × Str)) (oldAliases : List (Str × Option Str))
+    (nl : Bool)
+    (hold : ∀ p ∈ old, isIdent p.1 = true) (holdnd : (old.map (·.1)).Nodup)
+    (hnew : ∀ p ∈ new, isIdent p.1 = true) (hdict : (new.map (·.1)).Nodup)
+    (halpha : ∀ p ∈ new, old.get p.1 ≠ some p.2 → InAlphabet p.2)
+    (hprot : ∀ k, isProtected k = true → old.has k = true → new.has k = true)
+    (hal : ∀ p ∈ aliases, fnNameOk p.1 = true ∧ SimpleBody p.2) (haldict : (aliases.map (·.1)).Nodup)
+    (hoal : ∀ p ∈ oldAliases, isIdent p.1 = true)
+    (htrack : ∀ p ∈ aliases, defCmd? oldAliases p = none → funcs0.get p.1 = some (canon p.2)) :
+    ∃ cmds r, emit {} (OldEnv.ofEnv old) new aliases oldAliases = some cmds ∧
+      shEvalF old funcs0 (join cmds ++ (if nl then [10] else [])) = some r ∧
+      SameEnv r.sh.env new ∧
+      (∀ n, r.funcs.get n = match Env.get aliases n with
+                            | some v => some (canon v)
+                            | none => if oldAliases.any (·.1 == n) then none else funcs0.get n) ∧
+      r.out = [] ∧ r.status = 0 := by
+  have hcm : emitCmds {} (OldEnv.ofEnv old) new aliases oldAliases =
+      emitVarsOn {} (OldEnv.ofEnv old) new ++ emitAliases aliases oldAliases := by
+    simp [emitCmds, emitVars, finalEnv]
+  have halpha' : ∀ p ∈ new, (OldEnv.ofEnv old).lookup p.1 ≠ some (some p.2) → InAlphabet p.2 :=
+    fun p hp hl => halpha p hp (by intro hg; apply hl; rw [lookup_ofEnv, hg]; rfl)
+  have hgs : GoodSeq old funcs0 (emitCmds {} (OldEnv.ofEnv old) new aliases oldAliases) := by
+    rw [hcm, goodSeq_append]
+    exact ⟨goodSeq_vars _ old new funcs0 (tracks_ofEnv old) hold holdnd hnew hdict halpha',
+      goodSeq_static _ _ _ (aliasCmds_static aliases oldAliases hal hoal)⟩
+  have hev := shEvalF_join (emitCmds {} (OldEnv.ofEnv old) new aliases oldAliases) nl old funcs0 [] 0 hgs
+  refine ⟨(emitCmds {} (OldEnv.ofEnv old) new aliases oldAliases).map Cmd.text, _, ?_, hev, ?_, ?_, rfl, ?_⟩
+  · unfold emit; exact mapM_render_default _
+  · show SameEnv (applyAll _ old) new
+    rw [hcm, applyAll_append, applyAll_aliasCmds]
+    exact emitVars_apply (OldEnv.ofEnv old) old new (tracks_ofEnv old) hdict hprot
+  · intro n
+    show (applyAllF _ funcs0).get n = _
+    rw [hcm, applyAllF_append, applyAllF_vars]
+    exact aliases_spec aliases oldAliases funcs0 haldict htrack n
+  · show (if _ then 0 else 0) = 0
+    split <;> rfl
+
+/-- Non-vacuity: a changed path with a blank, a removed variable, a new alias `ll`, a removed alias `gone` that is
+also the name of a variable that stays, a function `other` of the caller's shell that eups knows nothing about. -/
+example :
+    let old : Env := [(Str.ofString "PATH", Str.ofString "/bin"), (Str.ofString "GONE", Str.ofString "1"),
+                      (Str.ofString "gone", Str.ofString "v")]
+    let new : Env := [(Str.ofString "PATH", Str.ofString "/my prod/bin:/bin"), (Str.ofString "gone", Str.ofString "v")]
+    let f0 : Env := [(Str.ofString "gone", Str.ofString "true"), (Str.ofString "other", Str.ofString "ls")]
+    let text := Str.ofString "export PATH='/my prod/bin:/bin';\nunset GONE;\nll() { ls  -l ; };\nunset -f gone\n"
+    emit {} (OldEnv.ofEnv old) new [(Str.ofString "ll", Str.ofString "ls  -l")] [(Str.ofString "gone", none)] =
+        some [Str.ofString "export PATH='/my prod/bin:/bin'", Str.ofString "unset GONE", Str.ofString "ll() { ls  -l ; }",
+              Str.ofString "unset -f gone"] ∧
+      (shEvalF old f0 text).map (fun r => (r.sh.env, r.funcs, r.out, r.status)) =
+        some (new, [(Str.ofString "other", Str.ofString "ls"), (Str.ofString "ll", Str.ofString "ls -l")], [], 0) := by
+  decide
+
+/-- the fragment of function bodies is wider than the theorem's plain command lines: `"$@"`, `$@`, single-quoted
+words and several commands are read too (and compared with dash and bash on every run); a body that closes the
+brace early, an empty body, a reserved word in command position and a function called `export` are outside it -/
+example :
+    ((shEvalF [] [] (Str.ofString "gg() { git grep \"$@\" ; }; w() { echo $@ done; printf 'a  b' ; }")).map (·.funcs)) =
+        some [(Str.ofString "gg", Str.ofString "git grep \"$@\""), (Str.ofString "w", Str.ofString "echo $@ done; printf 'a  b'")] ∧
+      shEvalF [] [] (Str.ofString "ll() { ls } ; }") = none ∧ shEvalF [] [] (Str.ofString "ll() {  ; }") = none ∧
+      shEvalF [] [] (Str.ofString "ll() { if ; }") = none ∧ shEvalF [] [] (Str.ofString "export() { ls ; }") = none := by
+  decide
+
+/-- **A failed request.**  When `Eups.setup` fails, `app.setup` returns the single command `false`: the shell that
+evaluates it keeps its environment and its functions and reports failure to the caller (status 1). -/
+theorem C05_failure_reports_false (env funcs : Env) (nl : Bool) :
+    ∃ r, shEvalF env funcs (sFalse ++ (if nl then [10] else [])) = some r ∧
+      r.sh.env = env ∧ r.funcs = funcs ∧ r.out = [] ∧ r.status = 1 := by
+  have hfeed : feedF (startF env funcs) sFalse = some { startF env funcs with sh := mid env [] sFalse } := by
+    rw [feedF_plain sFalse (startF env funcs) rfl rfl rfl (by decide)]
+    have hf := feed_safe sFalse (clean env) rfl (by decide) (by decide)
+    simp only [startF]
+    rw [hf]
+    simp [mid, clean]
+  have hstep : stepF { startF env funcs with sh := mid env [] sFalse } 10 =
+      some { startF env funcs with status := 1 } := by
+    have h1 : (sFalse == sEcho) = false := by decide
+    have h2 : (sFalse == sUnset) = false := by decide
+    have h3 : (sFalse == sExport) = false := by decide
+    simp [stepF, startF, mid, endWord, h1, h2, stepChar, exec, h3, clean, fnEffect]
+  cases nl
+  · refine ⟨{ startF env funcs with status := 1 }, ?_, rfl, rfl, rfl, rfl⟩
+    simp only [shEvalF, Bool.false_eq_true, if_false, List.append_nil, hfeed, Option.bind_some]
+    simpa [finishF, mid, startF] using hstep
+  · refine ⟨{ startF env funcs with status := 1 }, ?_, rfl, rfl, rfl, rfl⟩
+    simp only [shEvalF, if_true, feedF_append, hfeed, Option.bind_some, feedF_cons, feedF_nil, hstep]
+    simp [finishF, stepF, startF, clean, endWord]
+
+/-- the status is the last command's: a failure in the middle is not what the caller sees, a failure at the end is -/
+example : (shEvalF [] [] (Str.ofString "false;\nexport A=1")).map (·.status) = some 0 ∧
+    (shEvalF [] [] (Str.ofString "export A=1;\nfalse\n")).map (fun r => (r.sh.env, r.status)) =
+      some ([(Str.ofString "A", Str.ofString "1")], 1) := by decide
+
+/-! ## `setup -n` -/
+
+/-- **`-n`: the printed text only prints.**  With `--noaction` every command is wrapped in `echo "…"`.  For every
+caller's environment, function table and computed environment (names identifiers, written values over the
+alphabet) the shell that evaluates the `-n` text keeps its environment and its functions, succeeds, and writes — one
+per line, in order — exactly the commands of the model's command list for these options (the `SETUP_…` variables
+hidden unless `-vv`). -/
+theorem C05_noaction_prints (o : Opts) (ho : o.noaction = true) (hsh : o.shell = .sh) (old new funcs0 : Env) (nl : Bool)
+    (hold : ∀ p ∈ old, isIdent p.1 = true) (hnew : ∀ p ∈ finalEnv o new, isIdent p.1 = true)
+    (halpha : ∀ p ∈ finalEnv o new, old.get p.1 ≠ some p.2 → InAlphabet p.2) :
+    ∃ cmds r, emit o (OldEnv.ofEnv old) new [] [] = some cmds ∧
+      shEvalF old funcs0 (join cmds ++ (if nl then [10] else [])) = some r ∧
+      r.sh.env = old ∧ r.funcs = funcs0 ∧ r.status = 0 ∧
+      r.out = (emitVars o (OldEnv.ofEnv old) new).map Cmd.text := by
+  have hgood := emitVarsOn_good o (OldEnv.ofEnv old) old (finalEnv o new) (tracks_ofEnv old) hold hnew
+    (fun p hp hl => halpha p hp (by intro hg; apply hl; rw [lookup_ofEnv, hg]; rfl))
+  have hcm : emitCmds o (OldEnv.ofEnv old) new [] [] = emitVars o (OldEnv.ofEnv old) new := by
+    simp [emitCmds, emitAliases]
+  have hrender : ∀ l : List Cmd, (∀ c ∈ l, c.Good) → l.mapM (render o) = some (l.map fun c => echoText c.text) := by
+    intro l
+    induction l with
+    | nil => intro _; rfl
+    | cons c r ih =>
+      intro hg
+      have hc : render o c = some (echoText c.text) := by
+        have := hg c (by simp)
+        cases c <;> simp_all [render, echoWrap, echoText, Cmd.text, Cmd.Good]
+      simp [List.mapM_cons, hc, ih (fun d hd => hg d (by simp [hd]))]
+  have hev := shEvalF_join_echo ((emitVars o (OldEnv.ofEnv old) new).map Cmd.text) nl old funcs0 [] 0
+    (by
+      intro t ht
+      obtain ⟨c, hc, rfl⟩ := List.mem_map.mp ht
+      exact good_text_echoable c (hgood c hc))
+  refine ⟨(emitVars o (OldEnv.ofEnv old) new).map fun c => echoText c.text,
+    cleanF old funcs0 ([] ++ (emitVars o (OldEnv.ofEnv old) new).map Cmd.text)
+      (if ((emitVars o (OldEnv.ofEnv old) new).map Cmd.text).isEmpty then 0 else 0), ?_, ?_, rfl, rfl, ?_, ?_⟩
+  · unfold emit; rw [hcm]; exact hrender _ hgood
+  · simp only [List.map_map] at hev
+    exact hev
+  · show (if _ then 0 else 0) = 0
+    split <;> rfl
+  · show [] ++ _ = _
+    simp
+
+/-- with `-n -vv` nothing is hidden: the lines printed are exactly the commands the same request emits without `-n` -/
+theorem C05_noaction_vv_same_commands (o : Opts) (hv : o.verbose2 = true) (old : OldEnv) (new : Env) :
+    emitVars { o with noaction := true } old new = emitVars { o with noaction := false } old new := by
+  have hh : ∀ k, hidden { o with noaction := true } k = hidden { o with noaction := false } k := by
+    intro k; simp [hidden, hv]
+  have hs : setCmd? { o with noaction := true } old = setCmd? { o with noaction := false } old := by
+    funext p; simp only [setCmd?, hh]
+  have hu : ∀ e, unsetCmd? { o with noaction := true } e = unsetCmd? { o with noaction := false } e := by
+    intro e; funext p; simp only [unsetCmd?, hh]
+  simp only [emitVars, emitVarsOn, hs, hu, finalEnv]
+
+/-- Non-vacuity: `setup -n` with a value that needs quoting, a removed variable and a hidden `SETUP_` variable. -/
+example :
+    let old : Env := [(Str.ofString "PATH", Str.ofString "/bin"), (Str.ofString "GONE", Str.ofString "1")]
+    let new : Env := [(Str.ofString "PATH", Str.ofString "/my prod/bin:/bin"), (Str.ofString "SETUP_P", Str.ofString "p 1")]
+    let o : Opts := { noaction := true }
+    emit o (OldEnv.ofEnv old) new [] [] =
+        some [Str.ofString "echo \"export PATH='/my prod/bin:/bin'\"", Str.ofString "echo \"unset GONE\""] ∧
+      (shEvalF old [] (Str.ofString "echo \"export PATH='/my prod/bin:/bin'\";\necho \"unset GONE\"\n")).map
+          (fun r => (r.sh.env, r.out, r.status)) =
+        some (old, [Str.ofString "export PATH='/my prod/bin:/bin'", Str.ofString "unset GONE"], 0) := by
   decide
 
 end EupsModel.C05
